@@ -23,7 +23,8 @@ impl Tally {
         self.cases += 1;
         if !ok && self.fails.len() < 200 {
             let d = desc();
-            if !self.fails.contains(&d) { self.fails.push(d); }
+            let key = d.split(" (first at").next().unwrap_or("").to_string();
+            if !self.fails.iter().any(|f| f.split(" (first at").next().unwrap_or("") == key) { self.fails.push(d); }
         }
     }
     pub fn no_panic<R>(&mut self, f: impl FnOnce() -> R, desc: impl FnOnce() -> String) -> Option<R> {
